@@ -328,6 +328,9 @@ PTYPES: T.Dict[str, dict] = {
 PNAME = {'string': 'mystr', 'boolean': 'mybool', 'integer': 'myint', 'combo': 'mycomb', 'array': 'myarr', 'feature': 'myfeat'}
 DIFFTYPE_PARENT = {'string': 'boolean', 'boolean': 'string', 'integer': 'string', 'combo': 'string', 'array': 'string',
                    'feature': 'string'}
+# ... and of a *related* type (UserFeatureOption derives from UserComboOption in the implementation); the values are again
+# outside the subproject option's domain: a combo option must not yield to a feature option or vice versa
+DIFFTYPE_PARENT2 = {'combo': 'feature', 'feature': 'combo'}
 SUB_LEVEL = [1, 4, 5, 6, 7]          # sources that can name a project option of the subproject
 SP_SPELLED = [4, 6, 7]               # ... spelled `sp:opt`
 
@@ -665,14 +668,20 @@ def sp_project_cell(ptype: str, variant: str, mask: int, rot: int, cross: bool) 
     sc['sp_options'] = pdecl(name, ptype, True, yielding)
     if parent == 'same':
         sc['top_options'] = f"option('{name}', {p['decl']}, value: {lit(pdefault)})\n"
-    elif parent == 'difftype':
-        pt = DIFFTYPE_PARENT[ptype]
+    elif parent.startswith('difftype'):
+        pt = (DIFFTYPE_PARENT2 if parent == 'difftype2' else DIFFTYPE_PARENT)[ptype]
         ptyp = PTYPES[pt]['typ']
         if pt == 'string':
             pdefault, pvals = 'zz-parent', ['zz1', '', 'zz3', 'zz4', '', '', '', '']
+        elif pt == 'feature':
+            # a feature option is implemented as a kind of combo: related types, still different ones
+            pdefault, pvals = 'enabled', ['disabled', 'auto', 'enabled', 'disabled', 'auto', 'auto', 'auto', 'auto']
+        elif pt == 'combo':
+            pdefault, pvals = 'ten', ['nine', 'eight', 'seven', 'six', 'five', 'four', 'two', 'one']
         else:
             pdefault, pvals = True, [False, None, True, False, None, None, None, None]
-        sc['top_options'] = f"option('{name}', type: '{pt}', value: {lit(pdefault)})\n"
+        decl = PTYPES[pt]['decl'] if pt == 'combo' else f"type: '{pt}'"
+        sc['top_options'] = f"option('{name}', {decl}, value: {lit(pdefault)})\n"
     for i in range(8):
         if mask >> i & 1:
             add_source(sc, name, ptyp if i in TOP_SRC else typ, i, pvals[i] if i in TOP_SRC else vals[i], project_opt=True)
@@ -1511,12 +1520,12 @@ def run(ctx: Ctx) -> None:
     variants = ['none', 'same', 'yield-none', 'yield-same', 'yield-difftype']
     cross_ptype = set(PTYPES) if thorough else {rnd.choice(sorted(PTYPES))}
     for ptype in PTYPES:
-        for variant in variants:
+        for variant in variants + (['yield-difftype2'] if ptype in DIFFTYPE_PARENT2 else []):
             for cross in (False, True):
-                if cross and (ptype not in cross_ptype or variant in ('none', 'yield-none', 'yield-difftype')):
+                if cross and (ptype not in cross_ptype or variant in ('none', 'yield-none', 'yield-difftype', 'yield-difftype2')):
                     continue
                 allm = list(range(256))
-                if ctx.quick and variant == 'yield-difftype':
+                if ctx.quick and variant in ('yield-difftype', 'yield-difftype2'):
                     allm = allm[ctx.seed % 2::2]      # the direct OptionStore pass covers all of them
                 for ms in chunks(allm, 256 if variant.endswith('none') else 64):
                     shards.append((32 if variant.endswith('none') else 64, 'sp_project',
